@@ -1,49 +1,523 @@
 package main
 
+// Replay of solver counterexamples on the real code: the model of the function's entry state is turned into an
+// in-package Go test (injected with `go test -overlay`, nothing is written to the repository), the real function
+// is run under recover(), and the observation decides whether the counterexample is real.
+
 import (
+	"bytes"
+	"context"
+	"encoding/json"
 	"fmt"
 	"go/types"
+	"math/big"
+	"os"
+	"os/exec"
+	"path/filepath"
+	"sort"
+	"strings"
+	"time"
 )
-
-// modelTerms lists the terms whose model values describe a counterexample: leaves of the root parameters.
-func (ex *Exec) modelTerms() ([]*Term, []string) {
-	var ts []*Term
-	var names []string
-	for _, mv := range ex.modelVals {
-		ts = append(ts, mv.t)
-		names = append(names, mv.name)
-	}
-	return ts, names
-}
 
 type modelVal struct {
 	name string
 	t    *Term
 }
 
-func (ex *Exec) addModelVal(name string, v Val, t types.Type) {
-	switch x := v.(type) {
-	case Scalar:
-		if x.T != nil {
-			ex.modelVals = append(ex.modelVals, modelVal{name, x.T})
-		}
-	case SliceV:
-		ex.modelVals = append(ex.modelVals, modelVal{name + ".len", x.Len}, modelVal{name + ".base", x.Base}, modelVal{name + ".off", x.Off}, modelVal{name + ".cap", x.Cap})
-	case RefPtr:
-		ex.modelVals = append(ex.modelVals, modelVal{name, x.Ref})
-	case IfaceV:
-		ex.modelVals = append(ex.modelVals, modelVal{name + ".tag", x.Tag})
-	case StructV:
-		st := under(x.Typ).(*types.Struct)
-		for i, f := range x.F {
-			ex.addModelVal(name+"."+st.Field(i).Name(), f, st.Field(i).Type())
-		}
-	}
-	_ = fmt.Sprint
+// inputNode describes how to rebuild one input value in Go from model values.
+type inputNode struct {
+	Kind   string // int, bool, string, slice, struct, ptr, iface, nil, opaque, array
+	GoType string
+	Typ    types.Type
+	Term   int // index into the value list (scalars)
+	Len    int // index of the length term
+	Base   int // index of base term (nil test)
+	Elems  [][]*inputNode // slice elements (each a list with one node)
+	Fields []*inputNode
+	Names  []string
+	Elem   *inputNode
 }
 
-func (cr *checkRun) tryReplay(j *OblResult) {
-	if j.Replay == "" {
-		j.Replay = "not attempted"
+type inputPlan struct {
+	terms []*Term
+	names []string
+	roots []*inputNode
+	pnames []string
+}
+
+const replayMaxElems = 12
+
+func (ex *Exec) addModelVal(name string, v Val, t types.Type) {}
+
+func (ex *Exec) modelTerms() ([]*Term, []string) {
+	if ex.plan == nil {
+		return nil, nil
 	}
+	return ex.plan.terms, ex.plan.names
+}
+
+func (pl *inputPlan) add(name string, t *Term) int {
+	pl.terms = append(pl.terms, t)
+	pl.names = append(pl.names, name)
+	return len(pl.terms) - 1
+}
+
+func (ex *Exec) qualifier(p *types.Package) string {
+	if p == nil {
+		return ""
+	}
+	if ex.root.Pkg != nil && p == ex.root.Pkg.Pkg {
+		return ""
+	}
+	return p.Name()
+}
+
+// buildPlan walks the root parameters in the entry state.
+func (ex *Exec) buildPlan(fr *Frame, args []Val) {
+	pl := &inputPlan{}
+	ex.plan = pl
+	defer func() {
+		if r := recover(); r != nil {
+			if _, ok := r.(unsupported); ok {
+				return
+			}
+			panic(r)
+		}
+	}()
+	for i, p := range ex.root.Params {
+		n := ex.planVal(pl, p.Name(), args[i], p.Type(), 0)
+		pl.roots = append(pl.roots, n)
+		pl.pnames = append(pl.pnames, p.Name())
+	}
+}
+
+func (ex *Exec) planVal(pl *inputPlan, name string, v Val, t types.Type, depth int) *inputNode {
+	gt := types.TypeString(t, ex.qualifier)
+	n := &inputNode{GoType: gt, Typ: t}
+	if depth > 4 {
+		n.Kind = "zero"
+		return n
+	}
+	switch x := v.(type) {
+	case Scalar:
+		switch {
+		case isBoolean(t):
+			n.Kind = "bool"
+			n.Term = pl.add(name, x.T)
+		case isInteger(t):
+			n.Kind = "int"
+			n.Term = pl.add(name, x.T)
+		default:
+			n.Kind = "zero"
+		}
+	case SliceV:
+		n.Kind = "slice"
+		if x.IsString {
+			n.Kind = "string"
+		}
+		n.Len = pl.add(name+".len", x.Len)
+		n.Base = pl.add(name+".base", x.Base)
+		if _, nested := under(x.Elem).(*types.Array); nested {
+			n.Kind = "zero"
+			return n
+		}
+		for k := 0; k < replayMaxElems; k++ {
+			kt := ex.ts.NumLit(big.NewInt(int64(k)), ex.idxSort())
+			ev := ex.load(ex.elemPtr(x, kt))
+			n.Elems = append(n.Elems, []*inputNode{ex.planVal(pl, fmt.Sprintf("%s[%d]", name, k), ev, x.Elem, depth+1)})
+		}
+	case StructV:
+		n.Kind = "struct"
+		st := under(t).(*types.Struct)
+		if nt, ok := t.(*types.Named); ok && nt.Obj().Pkg() != nil && ex.root.Pkg != nil && nt.Obj().Pkg() != ex.root.Pkg.Pkg {
+			// foreign struct: only buildable when every field is exported
+			for i := 0; i < st.NumFields(); i++ {
+				if !st.Field(i).Exported() {
+					n.Kind = "zero"
+					return n
+				}
+			}
+		}
+		for i, f := range x.F {
+			fn := st.Field(i).Name()
+			if fn == "_" {
+				continue
+			}
+			n.Fields = append(n.Fields, ex.planVal(pl, name+"."+fn, f, st.Field(i).Type(), depth+1))
+			n.Names = append(n.Names, fn)
+		}
+	case RefPtr:
+		n.Kind = "ptr"
+		n.Base = pl.add(name, x.Ref)
+		if x.Elem == nil {
+			n.Kind = "zero"
+			return n
+		}
+		if _, isStruct := under(x.Elem).(*types.Struct); isStruct {
+			pv := ex.load(x)
+			n.Elem = ex.planVal(pl, "*"+name, pv, x.Elem, depth+1)
+		} else if isInteger(x.Elem) || isBoolean(x.Elem) {
+			pv := ex.load(x)
+			n.Elem = ex.planVal(pl, "*"+name, pv, x.Elem, depth+1)
+		} else {
+			n.Kind = "zero"
+		}
+	case ArrayLoc:
+		n.Kind = "array"
+		for k := int64(0); k < x.N && k < 64; k++ {
+			kt := ex.ts.NumLit(big.NewInt(k), ex.idxSort())
+			ev := ex.load(ElemPtr{Base: x.Ref, Idx: kt, Elem: x.Elem})
+			n.Elems = append(n.Elems, []*inputNode{ex.planVal(pl, fmt.Sprintf("%s[%d]", name, k), ev, x.Elem, depth+1)})
+		}
+	case IfaceV:
+		n.Kind = "zero"
+		n.Base = pl.add(name+".tag", x.Tag)
+	default:
+		n.Kind = "zero"
+	}
+	return n
+}
+
+type modelReader struct {
+	vals []string
+	bv   bool
+}
+
+func (m *modelReader) num(i int, t types.Type) (*big.Int, bool) {
+	if i < 0 || i >= len(m.vals) {
+		return nil, false
+	}
+	v, ok := parseSMTValue(m.vals[i])
+	if !ok {
+		return nil, false
+	}
+	if t != nil && isInteger(t) && !isUnsigned(t) && strings.HasPrefix(strings.TrimSpace(m.vals[i]), "#") {
+		v = signedVal(v, intWidth(t))
+	}
+	return v, true
+}
+
+// goExpr renders the Go expression constructing the input described by n under model m.
+func (n *inputNode) goExpr(m *modelReader) (string, error) {
+	switch n.Kind {
+	case "int":
+		v, ok := m.num(n.Term, n.Typ)
+		if !ok {
+			return "", fmt.Errorf("no value for %s", n.GoType)
+		}
+		return fmt.Sprintf("%s(%s)", n.GoType, v.String()), nil
+	case "bool":
+		v, ok := m.num(n.Term, nil)
+		if !ok {
+			return "", fmt.Errorf("no bool value")
+		}
+		if v.Sign() != 0 {
+			return "true", nil
+		}
+		return "false", nil
+	case "zero":
+		return fmt.Sprintf("*new(%s)", n.GoType), nil
+	case "slice", "string":
+		l, ok := m.num(n.Len, types.Typ[types.Int])
+		b, ok2 := m.num(n.Base, nil)
+		if !ok || !ok2 {
+			return "", fmt.Errorf("no length for %s", n.GoType)
+		}
+		if b.Sign() == 0 && n.Kind == "slice" {
+			return fmt.Sprintf("%s(nil)", n.GoType), nil
+		}
+		if !l.IsInt64() || l.Int64() > replayMaxElems || l.Int64() < 0 {
+			return "", fmt.Errorf("length %s of %s outside the replayable range (0..%d)", l, n.GoType, replayMaxElems)
+		}
+		var es []string
+		for k := int64(0); k < l.Int64(); k++ {
+			e, err := n.Elems[k][0].goExpr(m)
+			if err != nil {
+				return "", err
+			}
+			es = append(es, e)
+		}
+		if n.Kind == "string" {
+			return fmt.Sprintf("string([]byte{%s})", strings.Join(es, ", ")), nil
+		}
+		return fmt.Sprintf("%s{%s}", n.GoType, strings.Join(es, ", ")), nil
+	case "array":
+		var es []string
+		for _, e := range n.Elems {
+			s, err := e[0].goExpr(m)
+			if err != nil {
+				return "", err
+			}
+			es = append(es, s)
+		}
+		return fmt.Sprintf("%s{%s}", n.GoType, strings.Join(es, ", ")), nil
+	case "struct":
+		var fs []string
+		for i, f := range n.Fields {
+			e, err := f.goExpr(m)
+			if err != nil {
+				return "", err
+			}
+			if f.Kind == "zero" {
+				continue
+			}
+			fs = append(fs, fmt.Sprintf("%s: %s", n.Names[i], e))
+		}
+		return fmt.Sprintf("%s{%s}", n.GoType, strings.Join(fs, ", ")), nil
+	case "ptr":
+		b, ok := m.num(n.Base, nil)
+		if ok && b.Sign() == 0 {
+			return fmt.Sprintf("(%s)(nil)", n.GoType), nil
+		}
+		e, err := n.Elem.goExpr(m)
+		if err != nil {
+			return "", err
+		}
+		if n.Elem.Kind == "struct" {
+			return "&" + e, nil
+		}
+		return fmt.Sprintf("func() %s { v := %s; return &v }()", n.GoType, e), nil
+	}
+	return "", fmt.Errorf("cannot build %s", n.GoType)
+}
+
+// replayTest renders the test file for a model.
+func (ex *Exec) replayTest(vals []string) (string, error) {
+	if ex.plan == nil || len(ex.plan.roots) != len(ex.root.Params) {
+		return "", fmt.Errorf("no input plan for %s", relName(ex.root))
+	}
+	m := &modelReader{vals: vals, bv: ex.bv}
+	var sb strings.Builder
+	pkg := ex.root.Pkg.Pkg
+	imports := map[string]bool{}
+	var walk func(n *inputNode)
+	walk = func(n *inputNode) {
+		if n == nil {
+			return
+		}
+		collectImports(n.Typ, pkg, imports)
+		for _, f := range n.Fields {
+			walk(f)
+		}
+		walk(n.Elem)
+		for _, e := range n.Elems {
+			walk(e[0])
+		}
+	}
+	for _, r := range ex.plan.roots {
+		walk(r)
+	}
+	sb.WriteString("func TestZZVerifReplay(t *testing.T) {\n")
+	sb.WriteString("\tdefer func() {\n\t\tif r := recover(); r != nil {\n\t\t\tfmt.Printf(\"REPLAY-PANIC: %v\\n\", r)\n\t\t}\n\t}()\n")
+	var argNames []string
+	for i, r := range ex.plan.roots {
+		e, err := r.goExpr(m)
+		if err != nil {
+			return "", err
+		}
+		an := fmt.Sprintf("a%d", i)
+		fmt.Fprintf(&sb, "\t%s := %s // %s\n", an, e, ex.plan.pnames[i])
+		argNames = append(argNames, an)
+	}
+	fn := ex.root
+	var call string
+	if fn.Signature.Recv() != nil {
+		rest := argNames[1:]
+		if fn.Signature.Variadic() && len(rest) > 0 {
+			rest[len(rest)-1] += "..."
+		}
+		call = fmt.Sprintf("%s.%s(%s)", argNames[0], fn.Name(), strings.Join(rest, ", "))
+	} else {
+		if fn.Signature.Variadic() && len(argNames) > 0 {
+			argNames[len(argNames)-1] += "..."
+		}
+		call = fmt.Sprintf("%s(%s)", fn.Name(), strings.Join(argNames, ", "))
+	}
+	nres := fn.Signature.Results().Len()
+	switch nres {
+	case 0:
+		fmt.Fprintf(&sb, "\t%s\n\tfmt.Printf(\"REPLAY-RETURNED\\n\")\n", call)
+	default:
+		var rs []string
+		for i := 0; i < nres; i++ {
+			rs = append(rs, fmt.Sprintf("r%d", i))
+		}
+		fmt.Fprintf(&sb, "\t%s := %s\n", strings.Join(rs, ", "), call)
+		fmt.Fprintf(&sb, "\tfmt.Printf(\"REPLAY-RETURNED: %s\\n\", %s)\n", strings.Repeat("%#v ", nres), strings.Join(rs, ", "))
+	}
+	sb.WriteString("}\n")
+	body := sb.String()
+	var hd strings.Builder
+	fmt.Fprintf(&hd, "package %s\n\nimport (\n\t\"fmt\"\n\t\"testing\"\n", pkg.Name())
+	var imps []string
+	for p := range imports {
+		imps = append(imps, p)
+	}
+	sort.Strings(imps)
+	for _, p := range imps {
+		name := p
+		if i := strings.LastIndex(p, "/"); i >= 0 {
+			name = p[i+1:]
+		}
+		if strings.Contains(body, name+".") {
+			fmt.Fprintf(&hd, "\t%q\n", p)
+		}
+	}
+	hd.WriteString(")\n\n")
+	return hd.String() + body, nil
+}
+
+func collectImports(t types.Type, self *types.Package, out map[string]bool) {
+	switch u := t.(type) {
+	case *types.Named:
+		if p := u.Obj().Pkg(); p != nil && p != self {
+			out[p.Path()] = true
+		}
+	case *types.Pointer:
+		collectImports(u.Elem(), self, out)
+	case *types.Slice:
+		collectImports(u.Elem(), self, out)
+	case *types.Array:
+		collectImports(u.Elem(), self, out)
+	}
+}
+
+type ReplayDoc struct {
+	Property   string            `json:"property"`
+	Obligation string            `json:"obligation"`
+	Kind       string            `json:"kind"`
+	Text       string            `json:"text"`
+	Pos        string            `json:"pos"`
+	Solver     string            `json:"solver"`
+	Answer     string            `json:"answer"`
+	Reason     string            `json:"reason,omitempty"`
+	Model      map[string]string `json:"model,omitempty"`
+	Replay     string            `json:"replay"`
+	Replayed   bool              `json:"replayed"`
+	PkgDir     string            `json:"pkg_dir,omitempty"`
+	TestSource string            `json:"test_source,omitempty"`
+	TestOutput string            `json:"test_output,omitempty"`
+	SolverOut  string            `json:"solver_output,omitempty"`
+	Repo       string            `json:"repo,omitempty"`
+}
+
+// runReplayTest injects the test into the package with -overlay and runs it.
+func runReplayTest(repo, pkgDir, src string, timeout time.Duration) (string, error) {
+	tmp, err := os.MkdirTemp("", "govc-replay-")
+	if err != nil {
+		return "", err
+	}
+	defer os.RemoveAll(tmp)
+	tf := filepath.Join(tmp, "zz_verif_replay_test.go")
+	os.WriteFile(tf, []byte(src), 0o644)
+	ov := map[string]map[string]string{"Replace": {filepath.Join(pkgDir, "zz_verif_replay_test.go"): tf}}
+	ovb, _ := json.Marshal(ov)
+	ovf := filepath.Join(tmp, "overlay.json")
+	os.WriteFile(ovf, ovb, 0o644)
+	ctx, cancel := context.WithTimeout(context.Background(), timeout)
+	defer cancel()
+	cmd := exec.CommandContext(ctx, "bash", "-c", fmt.Sprintf("ulimit -v 8000000; cd %q && go test -overlay %q -vet=off -count=1 -v -timeout 60s -run '^TestZZVerifReplay$' . 2>&1", pkgDir, ovf))
+	cmd.Env = append(os.Environ(), "GOFLAGS=-mod=mod", "GOPROXY=off", "GOSUMDB=off", "GOTOOLCHAIN=local")
+	var out bytes.Buffer
+	cmd.Stdout = &out
+	cmd.Stderr = &out
+	err = cmd.Run()
+	s := out.String()
+	if len(s) > 6000 {
+		s = s[:3000] + "\n…\n" + s[len(s)-3000:]
+	}
+	return s, err
+}
+
+var safetyKinds = map[string]bool{"div": true, "index": true, "slice": true, "make": true, "panic": true, "typeassert": true, "alloc": true, "overflow": false}
+
+func (cr *checkRun) tryReplay(j *OblResult) {
+	if j.Answer != "sat" || j.ex == nil || len(j.modelVals) == 0 {
+		if j.Replay == "" {
+			j.Replay = "no model (solver answer " + j.Answer + ")"
+		}
+		return
+	}
+	ex := j.ex
+	ex.mu.Lock()
+	src, err := ex.replayTest(j.modelVals)
+	ex.mu.Unlock()
+	if err != nil {
+		j.Replay = "model not replayable: " + err.Error()
+		return
+	}
+	pkgDir := ""
+	for _, p := range cr.prog.Pkgs {
+		if p.PkgPath == funcPkgPath(ex.root) && len(p.GoFiles) > 0 {
+			pkgDir = filepath.Dir(p.GoFiles[0])
+		}
+	}
+	if pkgDir == "" {
+		j.Replay = "package directory not found"
+		return
+	}
+	out, _ := runReplayTest(cr.o.Repo, pkgDir, src, 120*time.Second)
+	j.testSrc, j.testOut, j.pkgDir = src, out, pkgDir
+	j.Replay = classifyReplay(j.Kind, out)
+}
+
+func classifyReplay(kind, out string) string {
+	switch {
+	case strings.Contains(out, "REPLAY-PANIC:"):
+		if safetyKinds[kind] {
+			return "REPRODUCED: the real code panics on the model input: " + firstLineWith(out, "REPLAY-PANIC:")
+		}
+		return "REPRODUCED (panic instead of the specified result): " + firstLineWith(out, "REPLAY-PANIC:")
+	case strings.Contains(out, "fatal error:"):
+		return "REPRODUCED: the real code dies on the model input: " + firstLineWith(out, "fatal error:")
+	case strings.Contains(out, "panic: test timed out"):
+		return "REPRODUCED: the real code does not terminate on the model input (60 s)"
+	case strings.Contains(out, "REPLAY-RETURNED"):
+		return "not reproduced by the entry-state model (the function returned: " + firstLineWith(out, "REPLAY-RETURNED") + ")"
+	case strings.Contains(out, "[build failed]") || strings.Contains(out, "[setup failed]"):
+		return "replay test did not build"
+	}
+	return "inconclusive replay output"
+}
+
+func firstLineWith(s, sub string) string {
+	for _, l := range strings.Split(s, "\n") {
+		if strings.Contains(l, sub) {
+			if len(l) > 300 {
+				l = l[:300]
+			}
+			return strings.TrimSpace(l)
+		}
+	}
+	return ""
+}
+
+func cmdReplay(args []string) int {
+	if len(args) < 1 {
+		fmt.Fprintln(os.Stderr, "usage: govc replay <replay.json>")
+		return 2
+	}
+	data, err := os.ReadFile(args[0])
+	if err != nil {
+		fmt.Fprintln(os.Stderr, err)
+		return 2
+	}
+	var d ReplayDoc
+	if err := json.Unmarshal(data, &d); err != nil {
+		fmt.Fprintln(os.Stderr, err)
+		return 2
+	}
+	fmt.Printf("obligation: %s\n%s\n", d.Obligation, d.Text)
+	if d.TestSource == "" {
+		fmt.Printf("no replayable input was found for this obligation (%s)\nsolver output:\n%s\n", d.Replay, d.SolverOut)
+		return 1
+	}
+	out, _ := runReplayTest(d.Repo, d.PkgDir, d.TestSource, 120*time.Second)
+	fmt.Println(out)
+	res := classifyReplay(d.Kind, out)
+	fmt.Println(res)
+	if strings.HasPrefix(res, "REPRODUCED") {
+		return 1
+	}
+	return 0
 }
